@@ -250,11 +250,11 @@ def gen_ops(L: Layouts, idx: Dict[str, int], rng: random.Random, tier: str) -> L
             return bytes([0x11] * n).hex()
         return bytes(rng.randrange(256) for _ in range(n)).hex()
 
-    def op(cname, field, val, key=None, path=(), enabled=True, tag="", mode=None, leafcls=None):
+    def op(cname, field, val, key=None, path=(), enabled=True, tag="", mode=None, leafcls=None, view=None):
         ci = idx[cname]
         lc = ci if leafcls is None else leafcls
         ts, _, _ = L.fld(lc, field)
-        ops.append(dict(cls=ci, init=img(ci, rng.randrange(3) if mode is None else mode), path=[list(p) for p in path],
+        ops.append(dict(view=view, cls=ci, init=img(ci, rng.randrange(3) if mode is None else mode), path=[list(p) for p in path],
                         field=field, key=key, val=val_json(val), enabled=enabled, _val=val, _ts=ts, _tag=tag,
                         _cname=cname))
 
@@ -286,6 +286,28 @@ def gen_ops(L: Layouts, idx: Dict[str, int], rng: random.Random, tier: str) -> L
         # wrong kind / wrong length sources are refused
         other = {"p": "upos", "d": "fpos", "f": "dpos", "b": "ppos", "u": "ppos"}[pre]
         op("VM_AA", tgt, V_arr(idx["VM_AB"], other, [1] * L.size(idx["VM_AB"])), tag="arr-field-to-field", mode=1)
+    # stores through a view object (msg.arr) obtained under the OTHER validation state than the one in force at the
+    # store: taken inside a disable block (left normally / nested / by exception) and used with validation on, and
+    # taken with validation on and used inside a disable block
+    for k in ("Int8", "Uint16", "Int64", "Float", "Double", "Byte"):
+        good, bad = elem_values(k)
+        cname = f"VM_A_{k}_4"
+        for vm, en in (("off-normal", True), ("off-nested", True), ("off-exc", True), ("on", False)):
+            for b in bad[:4] + good[:2]:
+                op(cname, "a", b, key=["i", 1], enabled=en, tag="view-state", mode=1, view=vm)
+                items = [good[0], good[1 % len(good)], good[0]]
+                op(cname, "a", V_list(items[:2] + [b]), key=["s", 1, 4, None], enabled=en, tag="view-state", mode=1, view=vm)
+                op(cname, "a", V_list([good[0], b, good[0], good[0]]), key=["s", None, None, None], enabled=en,
+                   tag="view-state", mode=1, view=vm)
+            if k in FLOAT_KINDS:
+                op(cname, "a", V_list([V_fbits(NAN), V_float(0.5), bad[0], V_float(0.5)]), key=["s", None, None, None],
+                   enabled=en, tag="view-state", mode=1, view=vm)
+    sA_, sB_ = idx["VS_A"], idx["VS_B"]
+    inst_ = lambda c: V_struct(c, [rng.randrange(256) for _ in range(4)])
+    for vm, en in (("off-normal", True), ("off-nested", True), ("off-exc", True), ("on", False)):
+        for items in ([inst_(sA_), inst_(sB_)], [inst_(sA_), inst_(sA_)], [inst_(sA_), V_none()]):
+            op("VM_SA_2", "sa", V_list(items), key=["s", None, None, None], enabled=en, tag="view-state", mode=1, view=vm)
+            op("VM_SA_2", "sa", items[1], key=["i", 1], enabled=en, tag="view-state", mode=1, view=vm)
     # Char fields holding a non-NUL value, refused and accepted values, at every nesting
     cvals = [V_str(""), V_str("ab"), V_str("abc"), V_str("é"), V_str("\x80"), V_int(5), V_none(), V_bytes(b""), V_bytes(b"a"),
              V_float(1.0), V_bool(True), V_list([V_str("a")]), V_list([]), V_cinst("Uint8", [65]), V_cinst("Int8", [65]),
